@@ -195,6 +195,8 @@ def verify(contract, registry, variant=None):
             for j, (ref, want) in enumerate(upd or []):
                 for suf, cl in ex.with_sink(o.st, fsrc.node, lambda: V.split_eq(Ko.st.seq(ref), want)):
                     ex.oblige(o.st, cl, 'post.update%d%s' % (j, suf), fsrc.node)
+        for nm, hyps, goal in E.lemmas:
+            obls.append(Obligation('%s/%s' % (base_prefix, nm), list(hyps), goal, 'lemma', fsrc.line))
     except SymErr as e:
         rep.error = 'unsupported: %s' % e
     rep.axioms = list(E.axioms)
